@@ -194,8 +194,10 @@ def run_adaptive(case):
         k = len(scales)
         if after.shape != (bs, k + 1):
             raise Violation('C12:adaptive-shape', 'after %d update(s) the distance output has shape %r, expected (%d, %d); %s' % (k, after.shape, bs, k + 1, ctx))
-        newest = np.sqrt((((Xe - Yo) / sd) ** 2).sum(axis=1))
-        if not np.allclose(after[:, -1], newest, rtol=1e-7, atol=0):
+        # the distance is judged with the scale elfi reports (the scale itself was compared with the population sd above, with a
+        # tolerance that reflects its conditioning): a tiny sd next to a large mean would otherwise leak into this comparison
+        newest = np.sqrt((((Xe - Yo) / s1) ** 2).sum(axis=1))
+        if not np.allclose(after[:, -1], newest, rtol=1e-9, atol=0):
             raise Violation('C12:adaptive-newest-distance', 'round %d: newest distance %r, Euclidean distance of summaries divided by the scale %r is %r; %s'
                             % (ri, after[:, -1].tolist(), sd.tolist(), newest.tolist(), ctx))
         b2 = before.reshape(bs, -1)
